@@ -12,7 +12,8 @@
      F4c  negated property sets with an inverse member do not follow 18.4
           (cannot be repaired: the module doctest of paths.py pins the behaviour)
      F4e  (SPARQL route) translatePath does not translate ^iri inside !(..), and !() raises *)
-From RV Require Import Paths.Model Paths.Basics Paths.Eval Paths.Spec Paths.Main.
+From Coq Require Import Permutation.
+From RV Require Import Paths.Model Paths.Basics Paths.Eval Paths.Spec Paths.Main Paths.Order Paths.TransModel Paths.TransProofs.
 
 (* Soundness and completeness for each of the four bound/unbound combinations of
    the ends, every graph, every bound term (in the graph or not, truthy or not)
@@ -45,24 +46,65 @@ Proof.
 Qed.
 Print Assumptions C11_four_bindings_partial.
 
-(* Termination on every graph (cycles, self-loops): the depth-first searches
-   never run out of the fuel |subject/object occurrences| + 1. *)
-Theorem C11_terminates_partial : forall g p s o,
-  wfp p = true -> has_ninv p = false ->
+(* What the code computes for EVERY well-formed path, negated sets with inverse
+   members included (their reading [neg_rel_impl] is pinned by the module doctest
+   of paths.py, finding F4c): sound and complete for the relation [impl_rel]. *)
+Theorem C11_pinned_semantics : forall g p s o,
+  wfp p = true ->
+  exists l, eval g (fuel g) p s o = Ok l
+            /\ forall x y, In (x, y) l <-> impl_rel g p x y /\ ends_ok g s o x y.
+Proof. exact impl_sound_complete. Qed.
+Print Assumptions C11_pinned_semantics.
+
+(* ... which is the SPARQL relation as soon as no negated set has an inverse member *)
+Theorem C11_impl_rel_is_path_rel : forall g p,
+  has_ninv p = false -> forall x y, impl_rel g p x y <-> path_rel g p x y.
+Proof. exact impl_rel_eq. Qed.
+Print Assumptions C11_impl_rel_is_path_rel.
+
+(* Termination on every graph (cycles, self-loops), for every well-formed path -
+   stated separately from the semantics, so also inside F4c: the depth-first
+   searches never run out of the fuel |subject/object occurrences| + 1, and
+   nothing raises. *)
+Theorem C11_terminates : forall g p s o,
+  wfp p = true ->
   eval g (fuel g) p s o <> OutOfFuel /\ eval g (fuel g) p s o <> Raised.
 Proof.
-  intros g p s o Hw Hi. destruct (sound_complete g p s o Hw Hi) as (l & Hl & _).
+  intros g p s o Hw. destruct (impl_sound_complete g p s o Hw) as (l & Hl & _).
   rewrite Hl. split; discriminate.
 Qed.
-Print Assumptions C11_terminates_partial.
+Print Assumptions C11_terminates.
 
 (* more fuel changes nothing: any n >= fuel g gives a correct answer too *)
 Theorem C11_fuel_monotone_partial : forall g n p s o,
   fuel g <= n -> wfp p = true -> has_ninv p = false ->
   exists l, eval g n p s o = Ok l
             /\ forall x y, In (x, y) l <-> path_rel g p x y /\ ends_ok g s o x y.
-Proof. intros g n p s o Hn Hw Hi. exact (eval_spec g n Hn p Hw Hi s o (or_introl I)). Qed.
+Proof. intros g n p s o Hn Hw Hi. exact (eval_spec g n p Hn Hw Hi s o). Qed.
 Print Assumptions C11_fuel_monotone_partial.
+
+(* Order independence.  The store answers a triple pattern with SOME enumeration of
+   the matching triples; the evaluators are parametrised by it ([evalE En]).  For any
+   two enumerations that are permutations of the matches, every well-formed path
+   and every binding of the ends, both evaluations succeed and their yields are
+   permutations of each other - so comparing observations as multisets loses nothing
+   and needs no model of the Memory store's index order. *)
+Theorem C11_order_independent : forall g E1 E2 n p s o,
+  enum_perm_ok g E1 -> enum_perm_ok g E2 -> fuel g <= n -> wfp p = true ->
+  exists l1 l2, evalE E1 g n p s o = Ok l1 /\ evalE E2 g n p s o = Ok l2 /\ Permutation l1 l2.
+Proof. intros g E1 E2 n p s o H1 H2 Hn Hw. exact (order_invariant g E1 E2 H1 H2 n Hn p Hw s o). Qed.
+Print Assumptions C11_order_independent.
+
+(* the same against the model's own enumeration, in terms of the comparison the
+   correspondence check uses *)
+Theorem C11_order_independent_observation : forall g En p s o,
+  enum_perm_ok g En -> wfp p = true ->
+  obs_eqb (evalE En g (fuel g) p s o) (eval g (fuel g) p s o) = true.
+Proof.
+  intros g En p s o HE Hw. destruct (order_invariant_eval g En p s o HE Hw) as (l1 & l2 & H1 & H2 & Hp).
+  rewrite H1, H2. simpl. apply bag_eqb_perm; auto.
+Qed.
+Print Assumptions C11_order_independent_observation.
 
 (* The answer of a closure (p*, p+, p?, possibly under ^) has no duplicates:
    full strength - any graph, any inner path (even one inside F4c), any ends, any fuel. *)
@@ -135,16 +177,16 @@ Print Assumptions C11_F4e_refuted.
    property: the historical definitions on the former witnesses. *)
 Theorem C11_hist_F4d_refuted :
   let g : graph := [] in
-  let l := [ev_mul g 1 (ev_iri g 3%N) ZeroOrMore; ev_mul g 1 (ev_iri g 4%N) ZeroOrMore;
-            ev_mul g 1 (ev_iri g 3%N) ZeroOrMore] in
+  let l := [ev_mul g 1 (ev_iri (std_enum g) 3%N) ZeroOrMore; ev_mul g 1 (ev_iri (std_enum g) 4%N) ZeroOrMore;
+            ev_mul g 1 (ev_iri (std_enum g) 3%N) ZeroOrMore] in
   hist_seq_bw l None (Some 1%N) = Ok [] /\ seq_bw l None (Some 1%N) = Ok [(1, 1)]%N.
 Proof. exact hist_seq_bw_refuted. Qed.
 Print Assumptions C11_hist_F4d_refuted.
 
 Theorem C11_hist_F4b_refuted :
   let g : graph := [(1, 3, 2); (2, 3, 1)]%N in
-  hist_ev_mul g (fuel g) (ev_iri g 3%N) ZeroOrMore (Some 1%N) None = Ok [(1, 1); (1, 2); (1, 1)]%N
-  /\ ev_mul g (fuel g) (ev_iri g 3%N) ZeroOrMore (Some 1%N) None = Ok [(1, 1); (1, 2)]%N.
+  hist_ev_mul g (fuel g) (ev_iri (std_enum g) 3%N) ZeroOrMore (Some 1%N) None = Ok [(1, 1); (1, 2); (1, 1)]%N
+  /\ ev_mul g (fuel g) (ev_iri (std_enum g) 3%N) ZeroOrMore (Some 1%N) None = Ok [(1, 1); (1, 2)]%N.
 Proof. exact hist_ev_mul_refuted. Qed.
 Print Assumptions C11_hist_F4b_refuted.
 
@@ -165,6 +207,64 @@ Theorem C11_history_reading : forall steps g os,
   exists ob, spec_ok (hc g' p s o sp) ob = true /\ In ob os.
 Proof. exact h_spec_reading. Qed.
 Print Assumptions C11_history_reading.
+
+(* The SPARQL route.  [ptree] is the tree parser.py builds for the Path grammar,
+   [translate] is algebra.translatePath with the splicing done by the SequencePath /
+   AlternativePath constructors, [tree_rel] the section 18.4 relation read directly
+   on the syntax tree.  For every grammatical tree outside F4e (no empty negated
+   set, no inverse member) the translation succeeds and the path it builds is
+   well-formed, has no untranslated member and denotes the tree's relation ... *)
+Theorem C11_translate_sound_partial : forall g t,
+  twf t = true -> t_f4e t = false ->
+  exists p, translate t = Ok p /\ wfp p = true /\ has_ninv p = false
+            /\ forall x y, path_rel g p x y <-> tree_rel g t x y.
+Proof. exact translate_sound. Qed.
+Print Assumptions C11_translate_sound_partial.
+
+(* ... so that translating and then evaluating answers a SPARQL path pattern with
+   exactly the pairs of the syntax tree's relation, for each binding of the ends. *)
+Theorem C11_sparql_route_partial : forall g t s o,
+  twf t = true -> t_f4e t = false ->
+  exists p l, translate t = Ok p /\ eval g (fuel g) p s o = Ok l
+              /\ forall x y, In (x, y) l <-> tree_rel g t x y /\ ends_ok g s o x y.
+Proof. exact sparql_route. Qed.
+Print Assumptions C11_sparql_route_partial.
+
+(* the translate suite: reading of its checker, its comparison, and the tie *)
+Theorem C11_translate_checker_reading : forall c p,
+  tspec_ok c (Ok p) = true <->
+  wfp p = true /\ has_ninv p = false
+  /\ forall x y, In x (nodes (t_g c)) -> In y (nodes (t_g c)) ->
+       (path_rel (t_g c) p x y <-> tree_rel (t_g c) (t_tree c) x y).
+Proof. exact tspec_ok_reading. Qed.
+Print Assumptions C11_translate_checker_reading.
+
+Theorem C11_translate_obs_eqb_sound : forall a b, tobs_eqb a b = true -> a = b.
+Proof. exact tobs_eqb_eq. Qed.
+Print Assumptions C11_translate_obs_eqb_sound.
+
+Theorem C11_translate_model_partial : forall c,
+  twf (t_tree c) = true -> tkf c = 0%N -> tspec_ok c (tmodel_obs c) = true.
+Proof. exact tspec_ok_model. Qed.
+Print Assumptions C11_translate_model_partial.
+
+Theorem C11_translate_F4e_refuted :
+  translate (TAlt [TSeq [TElt (TNeg [NInv 4%N]) None]]) = Ok (Neg [NBad])
+  /\ translate (TAlt [TSeq [TElt (TNeg []) None]]) = Raised.
+Proof. exact translate_f4e_refuted. Qed.
+Print Assumptions C11_translate_F4e_refuted.
+
+(* evaluate.evalBGP on  ?x path ?x  (both ends the same variable): the answers are the
+   nodes x of the graph with (x, x) in the path's relation *)
+Theorem C11_same_variable_partial : forall c, wf_same c -> kf c = 0%N -> spec_ok_same c (model_obs_same c) = true.
+Proof. exact spec_ok_same_model. Qed.
+Print Assumptions C11_same_variable_partial.
+
+Theorem C11_same_variable_reading : forall c l,
+  spec_ok_same c (Ok l) = true <->
+  forall x y, In (x, y) l <-> x = y /\ path_rel (c_g c) (c_path c) x x /\ In x (nodes (c_g c)).
+Proof. exact spec_ok_same_reading. Qed.
+Print Assumptions C11_same_variable_reading.
 
 (* non-vacuity: a nested closure over a graph with a 2-cycle, a self-loop and a
    falsy literal end point is inside the scope of the theorems; from a start on
